@@ -68,10 +68,11 @@ def isMetaKey (k : String) : Bool :=
   k == metaTraceID || k == metaProbe || k == metaRoot || k == metaStressed
 
 /-- `metadataField.set` / `unmarshalMsgp` guarded by the expected type: `some m'` when the key is
-one of the dedicated fields *and* the value has the expected type. -/
+one of the dedicated fields *and* the value has the expected type.  An empty `meta.trace_id` is no
+trace id: it leaves the id found so far in place. -/
 def setMeta (m : Meta) (k : String) (v : Val) : Option Meta :=
   if k = metaTraceID then
-    match v with | .str s => some { m with tid := s } | _ => none
+    match v with | .str s => some (if s = "" then m else { m with tid := s }) | _ => none
   else if k = metaProbe then
     match v with | .bool b => some { m with probe := some b } | _ => none
   else if k = metaRoot then
@@ -80,30 +81,50 @@ def setMeta (m : Meta) (k : String) (v : Val) : Option Meta :=
     match v with | .bool b => some { m with stressed := some b } | _ => none
   else none
 
-/-- one map entry in `extractCriticalFieldsFromBytes` (msgpack payloads, in byte order) -/
-def stepMsgp (nm : Names) (m : Meta) (kv : String × Val) : Meta :=
-  match setMeta m kv.1 kv.2 with
-  | some m' => m'
+/-- state of the scan in `extractCriticalFieldsFromBytes`: the dedicated fields, the best
+candidate from a configured trace-id field (`traceIDFromField`) and its configured index
+(`traceIDFieldIdx`, initially the number of configured names) -/
+structure Scan where
+  m : Meta
+  cand : String
+  idx : Nat
+  deriving Repr
+
+/-- one map entry in `extractCriticalFieldsFromBytes` (msgpack payloads, in byte order): among
+the configured trace-id fields the one with the lowest configured index wins, wherever it stands -/
+def stepMsgp (nm : Names) (st : Scan) (kv : String × Val) : Scan :=
+  match setMeta st.m kv.1 kv.2 with
+  | some m' => { st with m := m' }
   | none =>
     match kv.2 with
     | .str s =>
-      if m.tid = "" ∧ kv.1 ∈ nm.trace then { m with tid := s }
-      else if kv.1 ∈ nm.parent then (if s ≠ "" then { m with root := some false } else m)
-      else m
-    | _ => m
+      if kv.1 ∈ nm.trace ∧ nm.trace.idxOf kv.1 < st.idx then
+        (if s ≠ "" then { st with cand := s, idx := nm.trace.idxOf kv.1 } else st)
+      else if kv.1 ∈ nm.parent then
+        (if s ≠ "" then { st with m := { st.m with root := some false } } else st)
+      else st
+    | _ => st
 
-/-- one entry of `memoizedFields` in `ExtractMetadata` (payloads built from a Go map) -/
+/-- one entry of `memoizedFields` in `ExtractMetadata` (payloads built from a Go map): dedicated
+fields and the parent id; the trace id from configured fields is looked up after the loop -/
 def stepMap (nm : Names) (m : Meta) (kv : String × Val) : Meta :=
   if isMetaKey kv.1 then (setMeta m kv.1 kv.2).getD m
-  else if m.tid = "" ∧ kv.1 ∈ nm.trace then
-    match kv.2 with
-    | .str s => if s ≠ "" then { m with tid := s } else m
-    | _ => m
   else if kv.1 ∈ nm.parent then
     match kv.2 with
     | .str s => if s ≠ "" then { m with root := some false } else m
     | _ => m
   else m
+
+/-- `memoizedFields[name].(string)`, "" when absent or not a string -/
+def lookupStr (fs : Fields) (n : String) : String :=
+  match fs.find? (fun kv => kv.1 == n) with
+  | some (_, .str s) => s
+  | _ => ""
+
+/-- the value of the first configured trace-id field that holds a non-empty string -/
+def firstConfigured (fs : Fields) : List String → String
+  | [] => ""
+  | n :: t => if lookupStr fs n ≠ "" then lookupStr fs n else firstConfigured fs t
 
 /-- How the payload was built: from a Go map, from msgpack bytes, or from bytes that do not
 parse (the event is not well formed). -/
@@ -125,10 +146,16 @@ structure Event where
 /-- both extraction paths start with `MetaRefineryRoot.Set(true)` on a fresh payload -/
 def meta0 : Meta := { root := some true }
 
+/-- The trace id is `meta.trace_id` when the event carries a non-empty one, otherwise the value
+of the configured trace-id field that is listed first. -/
 def extract (enc : Enc) (nm : Names) (fs : Fields) : Meta :=
   match enc with
-  | .map => fs.foldl (stepMap nm) meta0
-  | _ => fs.foldl (stepMsgp nm) meta0
+  | .map =>
+    let m := fs.foldl (stepMap nm) meta0
+    if m.tid = "" then { m with tid := firstConfigured fs nm.trace } else m
+  | _ =>
+    let st := fs.foldl (stepMsgp nm) { m := meta0, cand := "", idx := nm.trace.length }
+    if st.m.tid = "" then { st.m with tid := st.cand } else st.m
 
 def metaOf (ev : Event) (nm : Names) : Meta := extract ev.enc nm ev.fields
 
